@@ -7,7 +7,8 @@ CONSTANTS
   Handles <- U_Handles
   DepSets <- U_DepSets
   HandlerSeqs <- U_HSeqs
-  UpRegs <- U_UpRegs
+  UpProgs <- U_UpProgs
+  CRProg <- U_CR
   QuitOn = TRUE
   QuitDeferred = TRUE
   DefCap = 4
